@@ -39,7 +39,25 @@ func newModelSession(body string, timeoutMs int) (*modelSession, Verdict) {
 	fmt.Fprintf(in, "(set-option :timeout %d)\n(set-option :model.completion true)\n", timeoutMs)
 	io.WriteString(in, body)
 	io.WriteString(in, "(check-sat)\n")
-	line, err := ms.out.ReadString('\n')
+	type rl struct {
+		line string
+		err  error
+	}
+	ch := make(chan rl, 1)
+	go func() {
+		l, e := ms.out.ReadString('\n')
+		ch <- rl{l, e}
+	}()
+	var line string
+	var err error
+	select {
+	case r := <-ch:
+		line, err = r.line, r.err
+	case <-time.After(time.Duration(timeoutMs+5000) * time.Millisecond):
+		// the solver ignored its timeout: give up on re-deriving a model
+		ms.close()
+		return nil, Unknown
+	}
 	if err != nil {
 		ms.close()
 		return nil, Unknown
